@@ -13,6 +13,7 @@ Inductive behaviour :=
 | Frozen               (* SIGSTOPped: answers nothing, dies only on SIGKILL *)
 | AlreadyDead          (* crashed before Kill *)
 | FailedHandshake      (* launched, but Start failed: a runner exists, no address *)
+| LaunchFailed         (* Start was called but nothing was launched (exec error, a custom runner whose Start fails): a runner is recorded, there is no process *)
 | NeverStarted.        (* Start was never called: no runner *)
 
 Record kparams := {
@@ -51,6 +52,8 @@ Definition close_request (P : kparams) (pr : kproto) (b : behaviour) : option (b
 Definition kill (P : kparams) (pr : kproto) (b : behaviour) : kresult :=
   match b with
   | NeverStarted => noop
+  | LaunchFailed =>      (* no address and no process: runner.Kill on nothing; Kill returns at once *)
+      {| k_returns := true; k_budget := 0; k_forced := true; k_clean_exit := false; k_exited := false |}
   | FailedHandshake =>   (* no address: straight to runner.Kill *)
       {| k_returns := true; k_budget := 0; k_forced := true; k_clean_exit := false; k_exited := true |}
   | _ =>
@@ -76,7 +79,7 @@ Definition kill_n (P : kparams) (pr : kproto) (b : behaviour) (n : nat) : list k
 (* ---- glue for the family "kill": input (proto behaviour) ; obs (returned_in_bound exited gone clean_exit forced) *)
 Definition beh_of_Z (z : Z) : behaviour :=
   match z with
-  | 0 => ExitsAtOnce | 1 => ExitsAfterDelay | 2 => Ignores | 3 => Frozen | 4 => AlreadyDead | 5 => FailedHandshake | _ => NeverStarted
+  | 0 => ExitsAtOnce | 1 => ExitsAfterDelay | 2 => Ignores | 3 => Frozen | 4 => AlreadyDead | 5 => FailedHandshake | 7 => LaunchFailed | _ => NeverStarted
   end%Z.
 
 Definition check_kill (P : kparams) (inp obs : V) : verdict :=
@@ -85,7 +88,7 @@ Definition check_kill (P : kparams) (inp obs : V) : verdict :=
       match dbool ret, dbool ex, dbool gone, dbool clean, dbool forced with
       | Some ret, Some ex, Some gone, Some clean, Some forced =>
           let r := kill P (if Z.eqb pr 0 then KNetRPC else KGRPC) (beh_of_Z b) in
-          let started := negb (Z.eqb b 6) in
+          let started := negb (Z.eqb b 6 || Z.eqb b 7) in
           let m := VL [vbool (k_returns r); vbool (k_exited r); vbool (k_exited r || negb started); vbool (k_clean_exit r); vbool (k_forced r)] in
           {| v_decoded := true; v_agree := V_eqb m obs;
              (* property oracle: Kill returned in bounded time; afterwards the process is gone and reported exited;
